@@ -400,7 +400,13 @@ func (m *monC02) blockExpect(t *Transition, exp *expect, trs []Transfer) []Viola
 				if uint32(len(a.EndTimes)) == a.MaxExt+1 {
 					branch = "batch-last-round"
 				}
-				for k, v := range step.Clearing.Alloc {
+				// what each bidder was delivered is read off the transfers (whether it is the right
+				// amount is C03's business; here every delivered coin must be accounted for)
+				for k, v := range sellingReceipts(trs, a) {
+					if _, ok := reserved[k]; !ok {
+						bad("delivery-to-stranger/"+branch, "selling escrow of auction %d delivers %s to %s who has no bid", a.ID, v, world.NameOf(k))
+						continue
+					}
 					alloc[k] = v
 				}
 				// refunds are read off the transfers paying-escrow -> bidder (the exact payment is
